@@ -41,7 +41,7 @@ var coreKeyTypes = []reflect.Type{
 }
 
 var fieldNames = []string{"A", "B", "Ab", "AB", "C1", "D_", "E", "F", "Gg", "H", "Abc", "X", "Y", "Z", "Id", "Name"}
-var tagNames = []string{"", "a", "b", "ab", "x-y", "<k>", "Ab", "q", "é", "A", "name", "with space", "0"}
+var tagNames = []string{"", "a", "b", "ab", "x-y", "<k>", "Ab", "q", "é", "A", "name", "with space", "0", "x/y", "a/"}
 
 // Feature is an "odd" type shape injected at most once per generated type. The name is part of
 // every signature of a mismatch on that type, so each feature's defects are listed separately and
